@@ -124,9 +124,10 @@ func (w *MWorld) first(pn, attr string, at int64) string {
 
 func (w *MWorld) ModTime(pn string) int64 {
 	var t int64
+	found := false
 	for _, c := range w.Claims {
-		if c.PN == pn && c.Date > t {
-			t = c.Date
+		if c.PN == pn && (!found || c.Date > t) {
+			t, found = c.Date, true
 		}
 	}
 	return t
